@@ -896,7 +896,7 @@ func shrinkValue(root any, test func(any) bool, node any, set func(any)) (any, b
 			key := k
 			// optional members: try removing
 			switch key {
-			case "alt", "faults", "edits", "tape", "delays", "module_fs", "via_serve", "mtime_ns", "dest_sub":
+			case "alt", "faults", "edits", "tape", "delays", "module_fs", "via_serve", "mtime_ns", "dest_sub", "seed", "fs", "empty":
 				old, had := v[key]
 				if had {
 					delete(v, key)
